@@ -46,7 +46,7 @@ REGISTRY = {
     "C19": ["lsp_state_is_latest", "lsp_hover_answers_latest", "lsp_unknown_document", "lsp_no_cross_document",
             "lsp_queries_pure", "hover_expr_sound", "hover_expr_complete", "goto_is_declaration",
             "hover_text_is_decl_type"],
-    "C20": ["check_exit_iff_error"],
+    "C20": ["check_exit_iff_error", "cli_exit_args_literal_one", "cli_check_single_exit_guard", "check_exit_byte_iff_error"],
 }
 
 # evidence level per property: "proof" only when REGISTRY[pid] is non-empty and carries the property
